@@ -236,9 +236,12 @@ def _one(R, darsia, rng, cur, shape, cnt, ov, case_no):
             cur.clear()
             cur.update({"shape": list(shape), "counts": list(cnt), "rel_overlap": ov, "payload": payload, "dimensions": dims, "origin": origin, "converted": conv})
             with contextlib.redirect_stdout(io.StringIO()):
-                ok, P = R.guarded("patches_constructible", lambda: darsia.Patches(base, list(cnt), rel_overlap=ov))
+                cnt_arg = list(cnt)  # the caller's own list of patch counts
+                ok, P = R.guarded("patches_constructible", lambda: darsia.Patches(base, cnt_arg, rel_overlap=ov))
                 if not ok:
                     return
+                cnt_arg[0] = cnt_arg[0] + 1  # ... changed by the caller afterwards (e.g. for the next Patches object)
+                R.check(list(P.num_patches) == list(cnt), "patch_counts_kept", {**cur, "num_patches_after_caller_changed_its_list": list(P.num_patches)})
                 R.guarded("assemble", lambda: P.assemble())
             R.check(np.array_equal(base.img, arr), "base_unchanged", dict(cur))
             # two live Patches objects: the previous case's object is assembled again now that another one exists
